@@ -11,6 +11,8 @@ def main(tier, replay=None):
     fams = [
         dict(scn="local", name="maildir-crash-and-faults", opts=["mode=maildir"], bounds="0,1,1,0", total=1 if q else 2),
         dict(scn="local", name="maildir-two-same-second", opts=["mode=maildir", "two=1"], bounds="%d,0,0,0" % (1 if q else 2), total=2, deadline=900),
+        dict(scn="local", name="maildir-timer-runs-out", opts=["mode=maildir"], bounds="0,%d,0,1" % (0 if q else 1), total=1 if q else 2),
+        dict(scn="local", name="mbox-lock-timer-runs-out", opts=["mode=mbox"], bounds="0,%d,0,1" % (0 if q else 1), total=1 if q else 2, deadline=1200),
         dict(scn="local", name="mbox-messages-x-faults", opts=["mode=mbox"] + ([] if q else ["thorough=1"]), bounds="0,1,0,0", total=1, deadline=1200),
         dict(scn="local", name="mbox-empty-box-crash", opts=["mode=mbox", "emptybox=1"], bounds="0,0,1,0", total=1, tier="thorough"),
         dict(scn="local", name="mbox-2-concurrent", opts=["mode=mboxconc", "n=2"], bounds="%d,1,0,0" % (2 if q else 3), total=3 if q else 4),
@@ -24,9 +26,10 @@ def main(tier, replay=None):
                 "message of <=3 (4) lines over {From_, >From_, >>From_, From, >, x, empty} with and without final newline, sizes around 1024, "
                 "x 7 senders x every failing write/fsync: the reference mboxrd reader of mbox(5) must return exactly the delivered messages "
                 "and the file is restored on failure; 2 and 3 concurrent deliveries under every interleaving within the preemption bound, "
-                "with one injected write failure")
+                "with one injected write failure; the program's own timer (24 h for a maildir delivery, 30 s for the mbox lock) running out before every call made while it is pending "
+                "(thorough: together with one failing call): the delivery is deferred with nothing visible, or complete")
     res.assumptions = ["virtual kernel (appendix A)", "mbox is documented as not crash-proof: machine crashes are not judged for mbox", "a failing flock() is outside the property (delivery proceeds unlocked, as documented 'if possible')"]
-    res.require_nonzero("evaluations", "maildir_files_checked", "machine_crashes", "process_kills", "deliveries_ok", "deliveries_deferred")
+    res.require_nonzero("evaluations", "maildir_files_checked", "machine_crashes", "process_kills", "deliveries_ok", "deliveries_deferred", "timers_expired")
     res.notes.append("virtual kernel vs Linux: %d operation sequences compared before this run, all agree (bin/conformance)" % nconf)
     lib_conformance(res, rundir("C12lib"), plain_src, ['io', 'num', 'seek'], tier, asan=False)
     return res.finish()
